@@ -71,8 +71,8 @@ def _frame(ctx, repo, m):
     for e in fields:
         if isinstance(e, ast.Attribute) and e.attr == "bytes":
             kinds.append("id")
-        elif isinstance(e, ast.Call) and dotted(e.func) == "struct.pack" and e.args and isinstance(e.args[0], ast.Constant):
-            pack_fmt = e.args[0].value
+        elif _struct_call(m, e) and _struct_call(m, e)[0] == "pack":
+            pack_fmt = _struct_call(m, e)[1]
             # packs len(<body>)
             kinds.append("len")
         elif isinstance(e, ast.Call) and dotted(e.func) == "pickle.dumps":
@@ -83,8 +83,9 @@ def _frame(ctx, repo, m):
     # the packed length is the length of the very body that follows
     ok = False
     for e in fields:
-        if isinstance(e, ast.Call) and dotted(e.func) == "struct.pack" and len(e.args) == 2:
-            a = e.args[1]
+        sc = _struct_call(m, e)
+        if sc and sc[0] == "pack" and len(sc[2]) == 1:
+            a = sc[2][0]
             body = next((x for x in (rets[0].value.right,) if True), None)
             bname = src(rets[0].value.right)
             ok = isinstance(a, ast.Call) and callee_name(a) == "len" and src(a.args[0]) == bname
@@ -98,13 +99,14 @@ def _frame(ctx, repo, m):
     ctx.ob("C13-R1", recv.fq, "every read is awaited and there are exactly three (id, length, body)", len(reads) == 3 and all(is_awaited(c) for c in reads), node=recv.node, construct="three awaited reads")
     unpack_fmt = None
     for c in calls_in(declen.node):
-        if dotted(c.func) == "struct.unpack" and c.args and isinstance(c.args[0], ast.Constant):
-            unpack_fmt = c.args[0].value
+        sc = _struct_call(m, c)
+        if sc and sc[0] == "unpack":
+            unpack_fmt = sc[1]
     ctx.ob("C13-R1", declen.fq, f"struct format agrees: pack {pack_fmt!r} / unpack {unpack_fmt!r}", pack_fmt is not None and pack_fmt == unpack_fmt, node=declen.node, construct="length format agreement",
            msg=f"the length field is written with {pack_fmt!r} but read with {unpack_fmt!r}")
     if len(reads) == 3 and pack_fmt:
-        n1 = reads[0].args[0].value if reads[0].args and isinstance(reads[0].args[0], ast.Constant) else None
-        n2 = reads[1].args[0].value if reads[1].args and isinstance(reads[1].args[0], ast.Constant) else None
+        n1 = _int_const(m, reads[0].args[0]) if reads[0].args else None
+        n2 = _int_const(m, reads[1].args[0]) if reads[1].args else None
         try:
             want = struct.calcsize(pack_fmt)
         except struct.error:
@@ -300,6 +302,60 @@ def _ordering(ctx, repo, m):
             conds = [(t, pl) for t, pl in path_conditions(h, rc.node) if not isinstance(getattr(t, "_parent", None), ast.Assert)]
             ctx.ob("C13-R4", rc.fq, "the hand-over is unconditional (every command kind takes the same route)", not conds, node=h, construct="hand-over unconditional",
                    msg=f"only commands with `{src(conds[0][0]) if conds else ''}` = {conds[0][1] if conds else ''} go through the interpreter's loop")
+
+
+def _module_const(m, name, depth=4):
+    """the expression a module-level name is bound to (single binding), else None"""
+    defs = [n for n in m.tree.body if isinstance(n, ast.Assign) and any(isinstance(t, ast.Name) and t.id == name for t in n.targets)]
+    return defs[0].value if len(defs) == 1 else None
+
+
+def _struct_fmt(m, e, depth=4):
+    """format string of a struct.Struct object expression (directly or through a module-level name), else None"""
+    while depth and isinstance(e, ast.Name):
+        e = _module_const(m, e.id)
+        depth -= 1
+    if isinstance(e, ast.Call) and dotted(e.func) in ("struct.Struct", "Struct") and e.args and isinstance(e.args[0], ast.Constant):
+        return e.args[0].value
+    return None
+
+
+def _struct_call(m, e):
+    """('pack'|'unpack', fmt, value args) for struct.pack(fmt, ...)/struct.unpack(fmt, ...) or <Struct>.pack(...)/<Struct>.unpack(...)"""
+    if not isinstance(e, ast.Call):
+        return None
+    d = dotted(e.func)
+    if d in ("struct.pack", "struct.unpack") and e.args and isinstance(e.args[0], ast.Constant):
+        return d.split(".")[1], e.args[0].value, e.args[1:]
+    if isinstance(e.func, ast.Attribute) and e.func.attr in ("pack", "unpack"):
+        fmt = _struct_fmt(m, e.func.value)
+        if fmt is not None:
+            return e.func.attr, fmt, e.args
+    return None
+
+
+def _int_const(m, e, depth=4):
+    """integer value of a constant expression: literal, module-level name, <Struct>.size, struct.calcsize(fmt)"""
+    while depth:
+        depth -= 1
+        if isinstance(e, ast.Constant) and isinstance(e.value, int):
+            return e.value
+        if isinstance(e, ast.Name):
+            e = _module_const(m, e.id)
+            continue
+        if isinstance(e, ast.Attribute) and e.attr == "size":
+            fmt = _struct_fmt(m, e.value)
+            try:
+                return struct.calcsize(fmt) if fmt is not None else None
+            except struct.error:
+                return None
+        if isinstance(e, ast.Call) and dotted(e.func) == "struct.calcsize" and e.args and isinstance(e.args[0], ast.Constant):
+            try:
+                return struct.calcsize(e.args[0].value)
+            except struct.error:
+                return None
+        return None
+    return None
 
 
 def _handles(ctx, repo, m):
